@@ -32,7 +32,7 @@ memo_key_nof = partial(e4.rule_memo_key, modules=("number_ordered_form", "second
 CORE = [e1b.rule_projection_pairs, e1b.rule_scope_flags, e2c.rule_product_by_order, e2c.rule_adjoint_fill, e2c.rule_cauchy_wiring,
         e4.rule_value_preserving, tv_shipped, e9.rule_runtime_support, e9.rule_exec_scope, e9.rule_adjoint_binding, start_data_shipped, e11.rule_helpers,
         # what the series H *is*: input normalisation of symbolic / list / dict Hamiltonians (Taylor coefficients, order keys)
-        e2b.rule_taylor, e2b.rule_key_normalisation,
+        e2b.rule_taylor, e2b.rule_key_normalisation, e6.rule_subspaces_from_indices,
         # `every Hamiltonian accepted by block_diagonalize` includes implicit mode: the exact (direct) implicit solver and the
         # projector it works with are part of what makes U†HU = H_tilde there.  The KPM solver is approximate (its accuracy and
         # convergence belong to C06 / C16 only), but how it is WIRED -- which vectors are projected out, which part is solved
@@ -130,8 +130,8 @@ prop(
 
 prop(
     "C07", level="other", selftest=["block_diagonalization", "second_quantization", "number_ordered_form", "algorithms"],
-    rules=[main_e1, wf_main, e12.rule_operator_mode, e7.rule_solve_scalar, e1b.rule_projection_pairs, e1b.rule_scope_flags,
-           e10.rule_operator_order, e10.rule_fermion_crossing, e10.rule_shift_table, e10.rule_linear_structure, e10.rule_number_operator_power,
+    rules=[main_e1, wf_main, e12.rule_operator_mode, e2b.rule_taylor, e7.rule_solve_scalar, e1b.rule_projection_pairs, e1b.rule_scope_flags,
+           e10.rule_operator_order, e10.rule_fermion_crossing, e10.rule_shift_table, e10.rule_linear_structure, e10.rule_number_operator_power, e10.rule_operator_sort_consistency,
            e2c.rule_product_by_order, e2c.rule_cauchy_wiring, e2c.rule_adjoint_fill, tv_shipped, e9.rule_runtime_support, e9.rule_exec_scope, e9.rule_adjoint_binding, start_data_shipped,
            e11.rule_helpers, e4.rule_loop_carried_state, e4.rule_memo_key],
     explanation=(
@@ -156,7 +156,7 @@ prop(
 
 prop(
     "C08", level="other", selftest=["number_ordered_form"],
-    rules=[e10.rule_operator_order, e10.rule_fermion_crossing, e10.rule_shift_table, e10.rule_linear_structure, e10.rule_number_operator_power,
+    rules=[e10.rule_operator_order, e10.rule_fermion_crossing, e10.rule_shift_table, e10.rule_linear_structure, e10.rule_number_operator_power, e10.rule_operator_sort_consistency,
            e4.rule_loop_carried_state, memo_key_nof],
     explanation=(
         "Necessary conditions of faithfulness decided from number_ordered_form.py: (i) the order in which __mul__ "
